@@ -119,10 +119,10 @@ PROPS["C12"] = {
     "level_note": "Lines longer than the supported limits (64 KiB incl. terminator on TCP/UDP, 4096 bytes incl. terminator on AMQP) are outside the generated domain; empty lines may be dispatched or skipped.",
     "technique": "property-based testing (rapid): reference-model oracle + metamorphic invariance under segmentation; native go fuzz target in the thorough tier",
     "assumptions": ["net.Pipe stands in for a TCP connection (real sockets are used by C05-C07)"],
-    "quick": [R("TestPropPlainChunking", 3000), R("TestPropListenerConn", 600), R("TestPropListenerDatagram", 2000), R("TestPropAMQPBodies", 1500), R("TestPropInterleavedStreams", 3000)],
+    "quick": [R("TestPropPlainChunking", 3000), R("TestPropListenerConn", 600), R("TestPropListenerDatagram", 2000), R("TestPropAMQPBodies", 1500), R("TestPropInterleavedStreams", 3000), R("TestPropRealUDPSocket", 400)],
     "thorough": [R("TestPropPlainChunking", 40000, shards=8, timeout=2400), R("TestPropListenerConn", 6000, shards=3, timeout=2400),
                  R("TestPropListenerDatagram", 40000, shards=2, timeout=2400), R("TestPropAMQPBodies", 20000, shards=2, timeout=2400),
-                 R("TestPropInterleavedStreams", 40000, shards=2, timeout=2400), F("FuzzPlainChunking", "120s")],
+                 R("TestPropInterleavedStreams", 40000, shards=2, timeout=2400), R("TestPropRealUDPSocket", 3000, shards=3, timeout=2400), F("FuzzPlainChunking", "120s")],
 }
 
 PROPS["C13"] = {
@@ -466,3 +466,22 @@ PROPS["C14"] = {
     "thorough": [R("TestPropAdminAndTraffic", 500, shards=12, timeout=3000), R("TestPropFilterValues", 400000, shards=4, timeout=3000), R("TestPropEveryRingPosition", 150, shards=2, timeout=3000), R("TestPropPickleBytes", 30000, shards=2, timeout=3000), R("TestPropPlainBytes", 100000, shards=2, timeout=3000), R("TestPropDatagramAndAMQPBytes", 100000, shards=2, timeout=3000),
                  F("FuzzPickleHandle", "180s", timeout=1200, workers=8)],
 }
+
+# Widenings of the last round of seeded changes, appended to the rule texts (evidence files quote `rule`).
+_ROUND5 = {
+    "C02": " The bad-metrics report is read with a narrow window first and a wide one afterwards (a narrow query must not shorten what a later wide query shows).",
+    "C03": " agg_cache also runs a sibling aggregation that shares regex and output format but not the other filter fields. many_names_aggregation (own sub-check): 100 000 - 300 000 distinct names through ONE cached aggregation, every verdict compared with the reference filter; non-trivial: >= 100 000 names with both verdicts present.",
+    "C04": " many_names_rewriter (own sub-check): 100 000 - 300 000 distinct names through ONE rewriter rule object, every result compared with the reference; non-trivial: >= 100 000 names of which some are rewritten and some are not.",
+    "C05": " The process log level is drawn per case from {panic, info, debug, trace}; the connection's manual Flush() is issued in the middle of some streams.",
+    "C10": " Output formats use every expansion form ($1, ${1}, $0, ${0}, $$, named and missing groups) over regexes with zero or more capture groups.",
+    "C11": " Raw values include NaN for the functions that accept it; route filters are modified between rounds.",
+    "C12": " real_udp_socket (own sub-check): a started Listener on an IPv4 and an IPv6 loopback address receives generated datagrams (1 byte up to the kernel maximum, 65507 / 65527 bytes, 1-30 lines, last line terminated or not) through its real socket; a marker datagram tells when the one before it has been handled; a datagram that produced nothing is re-sent (kernel loss is never a violation); oracle: the dispatched lines are exactly the lines of the datagram; non-trivial: datagram > 2000 bytes.",
+    "C13": " malformed_frame serves the damaged connection and the following healthy connection with ONE handler object; damaged frames also come in sizes above 4096 bytes.",
+    "C15": " Hosts are also spelled in upper case, with a trailing dot and as DNS names of up to ~120 characters; instances up to ~100 characters; modDest re-points a destination at run time.",
+    "C16": " Numbers in the schemas file are also written zero-padded; section names may repeat.",
+    "C17": " 1 case in 20 is a bulk case: 10 001 - 20 001 points, flushMaxNum in {10000, 10001, 15001, 50000}, flushMaxWait 1-2 s, client timeout 5 s, no pauses.",
+    "C19": " many_names spreads timestamps over steps of {1, 3, 100} so that first points lie up to a year apart.",
+    "C20": " Numbers are also written zero-padded in commands, destination strings and TOML values where the syntax allows a decimal number.",
+}
+for _k, _v in _ROUND5.items():
+    PROPS[_k]["rule"] = PROPS[_k]["rule"] + _v
